@@ -26,6 +26,50 @@ theorem parsePublicKeyRSA_perm (bs : Bytes) (k : Key) (h : parsePublicKeyRSA fal
   | err => simp [hu] at h
   | panic => simp [hu] at h
 
+theorem parsePublicKeyDSA_perm (bs ps : Bytes) (k : Key) (h : parsePublicKeyDSA false bs ps = .ok k) :
+    parsePublicKeyDSA true bs ps = .ok k := by
+  unfold parsePublicKeyDSA at h ⊢
+  cases hu : unmarshal false .bigint {} bs with
+  | ok x =>
+    obtain ⟨v, rest⟩ := x
+    rw [unm_perm _ _ _ _ hu]
+    simp only [hu] at h ⊢
+    split_ifs at h ⊢ with hr
+    cases hp : unmarshal false dsaParamsSchema {} ps with
+    | ok y =>
+      obtain ⟨pv, rest2⟩ := y
+      rw [unm_perm _ _ _ _ hp]
+      simpa [hp] using h
+    | err => simp [hp] at h
+    | panic => simp [hp] at h
+  | err => simp [hu] at h
+  | panic => simp [hu] at h
+
+theorem parsePublicKeyECDSA_perm (ecOk : Nat → Bytes → Bool) (bs ps : Bytes) (k : Key)
+    (h : parsePublicKeyECDSA ecOk false bs ps = .ok k) : parsePublicKeyECDSA ecOk true bs ps = .ok k := by
+  unfold parsePublicKeyECDSA at h ⊢
+  cases hu : unmarshal false .oid {} ps with
+  | ok x =>
+    obtain ⟨v, rest⟩ := x
+    rw [unm_perm _ _ _ _ hu]
+    simpa [hu] using h
+  | err => simp [hu] at h
+  | panic => simp [hu] at h
+
+theorem parsePublicKey_perm (ecOk : Nat → Bytes → Bool) (algo : Nat) (bs ps : Bytes) (k : Key)
+    (h : parsePublicKey ecOk false algo bs ps = .ok k) : parsePublicKey ecOk true algo bs ps = .ok k := by
+  unfold parsePublicKey at h ⊢
+  by_cases h1 : algo = 1
+  · simp only [if_pos h1] at h ⊢; exact parsePublicKeyRSA_perm _ _ h
+  simp only [if_neg h1] at h ⊢
+  by_cases h2 : algo = 2
+  · simp only [if_pos h2] at h ⊢; exact parsePublicKeyDSA_perm _ _ _ h
+  simp only [if_neg h2] at h ⊢
+  by_cases h3 : algo = 3
+  · simp only [if_pos h3] at h ⊢; exact parsePublicKeyECDSA_perm _ _ _ _ h
+  simp only [if_neg h3] at h ⊢
+  exact h
+
 theorem gnElem_perm (v : Val) (tag : Nat) (inner full : Bytes) (acc r : GN)
     (h : gnElem false v tag inner full acc = (r, true)) : gnElem true v tag inner full acc = (r, true) := by
   unfold gnElem at h ⊢
